@@ -71,7 +71,7 @@ class C02(Check):
         for sp, ok in S.ser_family(n_max=nmax):
             if ok:
                 jobs.append(line_job(sp, mons, e2=1))
-        return jobs
+        return jobs + topo_jobs(mons, tier)
 
 
 def _line_jobs(specs, mons, tier, e2q=3, e2t=10, trace=False, **caps):
@@ -82,6 +82,19 @@ def _line_jobs(specs, mons, tier, e2q=3, e2t=10, trace=False, **caps):
     for sp in split_specs(specs):
         m = [(['route', sp['name'].startswith('FAN')] if x == 'route' else x) for x in mons]
         out.append(line_job(sp, m, e2=e2q if tier == 'quick' else e2t, trace=trace, **caps))
+    return out
+
+
+def topo_jobs(mons, tier, kinds=None):
+    '''The enumerated two-layer topology family (225 topologies: every pair of layer options, one or two parallel
+    devices of every kind): K=0 in the quick tier, K=1 in the thorough one.  `kinds` restricts to topologies that
+    contain a device of one of the given kinds.'''
+    out = []
+    for sp in S.topo_family(0 if tier == 'quick' else 1):
+        if kinds and not any(d['kind'] in kinds for d in sp['devices']):
+            continue
+        m = [(['route', False] if x == 'route' else x) for x in mons]
+        out.append(line_job(sp, m, e2=1, max_states=200000, max_depth=1500, max_seconds=900))
     return out
 
 
@@ -130,7 +143,7 @@ class C03(Check):
         for sp, ok in S.ser_family(n_max=nmax):
             if ok:
                 jobs.append(line_job(sp, ['wakeup'], e2=1, max_depth=800))
-        return jobs
+        return jobs + topo_jobs(['wakeup'], tier)
 
 
 def buffer_scenarios(K, thorough):
@@ -158,7 +171,7 @@ class C05(Check):
         for sp, ok in S.ser_family(n_max=nmax, budgets=(None,) if tier == 'quick' else (None, 2)):
             if ok and any(d['kind'] == 'buffer' for d in sp['devices']):
                 jobs.append(line_job(sp, ['buffer'], e2=1, max_depth=800))
-        return jobs
+        return jobs + topo_jobs(['buffer'], tier, kinds=('buffer',))
 
 
 @check
@@ -181,7 +194,7 @@ class C06(Check):
         for sp, ok in S.ser_family(n_max=1 if tier == 'quick' else 2):
             if ok:
                 jobs.append(line_job(sp, ['cycle'], e2=1, max_depth=800))
-        return jobs
+        return jobs + topo_jobs(['cycle'], tier, kinds=('handler', 'processor'))
 
 
 @check
@@ -201,7 +214,7 @@ class C08(Check):
         hg = 6 if th and K <= 1 else 4
         specs = [S.FAN(K), S.FAN3(2, horizon=8), S.GRPFAN(K), S.BATCHGATE(K), S.BATCH_DIRECT(K), S.GATE(K), S.REENT(K), S.REENT(K, src_cycle=1), S.GRP2(K, horizon=hg),
                  S.NEST_MID(K, horizon=hg), S.NEST_OUT(K, horizon=hg), S.BLOCK(K), S.BATCH(K), S.REWIRE(K), S.GATEGRP(K)]
-        return _line_jobs(specs, ['route'], tier)
+        return _line_jobs(specs, ['route'], tier) + topo_jobs(['route'], tier)
 
 
 @check
@@ -237,7 +250,10 @@ class C13(Check):
     def jobs(self, tier):
         K = 2 if tier == 'quick' else 3
         specs = [S.MAINT(K, n=1, probes=3), S.MAINT(K - 1, probes=3), S.FAN(K - 1), S.BLOCKED_OUT(K)]
-        return _line_jobs(specs, ['shutdown', 'wakeup'], tier)
+        jobs = _line_jobs(specs, ['shutdown', 'wakeup'], tier)
+        if tier != 'quick':
+            jobs += topo_jobs(['shutdown'], tier, kinds=('processor',))
+        return jobs
 
 
 @check
@@ -258,7 +274,7 @@ class C15(Check):
         specs = catalogue(K, tier != 'quick') + [S.MAINT(K + 1, n=1), S.VALUE(K)]
         # the same log obligations across consecutive simulate() calls, with operations issued between the runs
         specs += [S.with_splits(x) for x in (S.RES(K), S.MAINT(K, n=1), S.BUDGET(K), S.BATCH(K), S.FAN(K))]
-        return _line_jobs(specs, ['data'], tier, e2q=6, e2t=20, trace=True)
+        return _line_jobs(specs, ['data'], tier, e2q=6, e2t=20, trace=True) + topo_jobs(['data'], tier)
 
 
 @check
@@ -274,7 +290,7 @@ class C16(Check):
         K = 1 if tier == 'quick' else 2
         specs = [S.VALUE(K), S.VALUE(K + 1, horizon=4), S.VALUE_BATCH(K), S.MAINT(K), S.MAINT(K + 1, n=1),
                  S.VALUE_NEST(K), S.VALUE_NEG(K), S.VALUE_NEG(K + 1, horizon=4)]
-        return _line_jobs(specs, ['value'], tier)
+        return _line_jobs(specs, ['value'], tier) + topo_jobs(['value'], tier)
 
 
 @check
@@ -302,7 +318,8 @@ class C17(Check):
             for size in (None, 2, 3):
                 specs.append(S.BATCH_DIRECT(K, pattern=pat, size=size, cap=4 if size else None, sink_cycle=1 if size else 0))
         specs += [S.BUFBATCH(K), S.BUFBATCH(K, pattern=(3, 2), cap=4, size=2), S.BATCHGATE(K)]
-        return _line_jobs(specs, ['batching', 'census', 'route'], tier)
+        return _line_jobs(specs, ['batching', 'census', 'route'], tier) + \
+            topo_jobs(['batching', 'census', 'route'], tier, kinds=('batcher',))
 
 
 @check
